@@ -19,24 +19,37 @@ type violationPanic struct{ v Violation }
 // FaultCfg is the per-run (swarm) configuration of the network-level adversary. Weights are
 // relative; 0 disables the kind.
 type FaultCfg struct {
-	Deliver   int // deliver the oldest enabled message (FIFO)
-	Serve     int // serve the oldest enabled want
-	Refresh   int // propagate the oldest pending membership change
-	Tick      int // advance virtual time by a small irregular quantum
-	Reorder   int // deliver a random enabled message (overtaking)
-	ServeAny  int // serve a random enabled want (fetch completion order)
-	Drop      int // drop a random pending message
-	Dup       int // duplicate a random pending message
-	Cut       int // cut a random link
-	Heal      int // heal a random cut link
-	Jump      int // advance virtual time by 10..120 s
-	Release   int // release one goroutine parked at a hook
-	Stream    int // move a chunk of bytes (or EOF) on a simulated libp2p stream
-	FailFetch int // a pending block fetch (served or not) fails with an I/O error
-	Burst     int // 2-3 enabled deliveries / fetch completions in one quantum (their handlers run concurrently)
+	Deliver    int // deliver the oldest enabled message (FIFO)
+	Serve      int // serve the oldest enabled want
+	Refresh    int // propagate the oldest pending membership change
+	Tick       int // advance virtual time by a small irregular quantum
+	Reorder    int // deliver a random enabled message (overtaking)
+	ServeAny   int // serve a random enabled want (fetch completion order)
+	Drop       int // drop a random pending message
+	Dup        int // duplicate a random pending message
+	Cut        int // cut a random link
+	Heal       int // heal a random cut link
+	Jump       int // advance virtual time by 10..120 s
+	Release    int // release one goroutine parked at a hook
+	Stream     int // move a chunk of bytes (or EOF) on a simulated libp2p stream
+	FailFetch  int // a pending block fetch (served or not) fails with an I/O error
+	Burst      int // 2-3 enabled deliveries / fetch completions in one quantum (their handlers run concurrently)
+	CancelRace int // a block fetch completes and the request it belongs to is cancelled in the same quantum
 }
 
 func BenignCfg() FaultCfg { return FaultCfg{Deliver: 6, Serve: 6, Refresh: 4, Tick: 2, Stream: 6} }
+
+// cancellable: the cancel function of a request context issued by the harness on a node.
+type cancellable struct {
+	node   int
+	cancel func()
+	used   bool
+}
+
+// RegisterCancel makes a request's cancellation available to the CancelRace action.
+func (k *K) RegisterCancel(node int, cancel func()) {
+	k.cancels = append(k.cancels, &cancellable{node: node, cancel: cancel})
+}
 
 type Extra struct {
 	Name   string
@@ -58,6 +71,7 @@ type K struct {
 	lastFaultStep int
 	inInv         bool
 	draining      bool
+	cancels       []*cancellable
 	cleanups      []func()
 	// PostRun checks run after the bubble has ended, on the real clock (e.g. porcupine)
 	PostRun  []func() *Violation
@@ -207,6 +221,7 @@ func (k *K) act() string {
 		cond(len(streams) > 0, k.F.Stream),
 		cond(len(wantsLive) > 0, k.F.FailFetch),
 		cond(len(msgsEn)+len(wantsEn) > 1, k.F.Burst),
+		cond(len(k.raceCandidates(wantsEn)) > 0, k.F.CancelRace),
 	}
 	base := len(ws)
 	for _, e := range k.Extras {
@@ -330,8 +345,44 @@ func (k *K) act() string {
 		w.stat("burst")
 		w.mu.Unlock()
 		return "burst"
+	case 15:
+		cand := k.raceCandidates(wantsEn)
+		p := cand[k.C.Intn(len(cand))]
+		var c *cancellable
+		for _, x := range k.cancels {
+			if !x.used && x.node == p.src {
+				c = x
+			}
+		}
+		w.mu.Lock()
+		w.tr("serve+cancel %s", p)
+		w.stat("serve")
+		w.stat("cancel-races-completion")
+		w.execLocked(p)
+		w.mu.Unlock()
+		c.used = true
+		c.cancel()
+		k.lastFaultStep = w.step
+		return "cancelrace"
 	}
 	return ""
+}
+
+// raceCandidates: enabled fetches of nodes that have a not yet cancelled harness request.
+func (k *K) raceCandidates(wantsEn []*Pend) []*Pend {
+	if k.F.CancelRace == 0 {
+		return nil
+	}
+	var out []*Pend
+	for _, p := range wantsEn {
+		for _, x := range k.cancels {
+			if !x.used && x.node == p.src {
+				out = append(out, p)
+				break
+			}
+		}
+	}
+	return out
 }
 
 func cond(b bool, w int) int {
